@@ -28,6 +28,7 @@ RULE = (
     'modified ancestor, or >=2 new shared values one referencing the other, or a callable swap '
     'together with a tag change.'
 )
+RULE += (' ' + 'Round 7: template tag_below_moved (a Buildable whose only change is a tag change sits below a Buildable that the diff relocates).')
 RULE += (' ' + 'Round 3: template symbols (objects of __main__ with nested qualnames, two modules with the same last name).')
 ASSUMPTIONS = [
     'if apply_diff itself raises for a diff, the case is skipped and counted (C10 owns that failure)',
@@ -41,7 +42,7 @@ TIME_LIMIT = {'quick': 900, 'thorough': 6 * 3600}
 @st.composite
 def strategy_(draw, tier):
   if draw(st.floats(0, 1)) < 0.2:
-    return {'kind': 'template', 't': draw(st.sampled_from(['alias_replaced', 'alias_replaced', 'shared_chain', 'symbols'])),
+    return {'kind': 'template', 't': draw(st.sampled_from(['alias_replaced', 'alias_replaced', 'shared_chain', 'symbols', 'tag_below_moved'])),
             'slots': draw(st.permutations(['b', 'c', 'd', 'e'])), 'swap': draw(st.booleans()),
             'which': draw(st.lists(st.sampled_from(['main_nested', 'main_fn', 'vfrac', 'stdfrac']), min_size=1, max_size=4, unique=True)),
             'shared_block': draw(st.booleans()), 'modify_via': draw(st.sampled_from(['a', 'b'])),
@@ -77,6 +78,29 @@ def make_template(case):
       changes.append(diffing.ModifyValue(_attr(case['ref_via'], 'child', 'y'), 3.5)
                      if case['ref_via'] != case['modify_via'] and not case['shared_block'] else
                      diffing.SetValue(_attr('c', 'y'), 'edited'))
+    if case['extra_delete']:
+      changes.append(diffing.DeleteValue(_attr('d')))
+    return old, diffing.Diff(tuple(changes), ())
+  if t == 'tag_below_moved':
+    # a Buildable whose only change is a tag change, below a Buildable that the same diff moves
+    # elsewhere while something new takes its old place
+    from harness.vuni import tags as vtags
+    norm = fdl.Config(things.f2, x='norm', y=2.0)
+    if case['swap']:
+      fdl.add_tag(norm, 'y', vtags.TagA)
+    blk = fdl.Config(things.f2, x='blk', child=norm)
+    old = fdl.Config(things.h1, a=blk, c=fdl.Config(things.f2, x='head'), d='x')
+    repl = (fdl.Config(things.f2, x='new-blk', child=fdl.Config(things.f2, x='new-norm', y=7)) if case['shared_block']
+            else fdl.Config(things.h1, a='other-shape'))
+    tag_op = (diffing.RemoveTag(_attr('a', 'child', 'y'), vtags.TagA) if case['swap']
+              else diffing.AddTag(_attr('a', 'child', 'y'), vtags.TagA))
+    changes = [
+        diffing.ModifyValue(_attr('a'), repl),
+        diffing.SetValue(_attr('c', 'child'), diffing.Reference('old', _attr('a'))),
+        tag_op,
+    ]
+    if case['also_edit_moved']:
+      changes.append(diffing.AddTag(_attr('a', 'x'), vtags.TagX))
     if case['extra_delete']:
       changes.append(diffing.DeleteValue(_attr('d')))
     return old, diffing.Diff(tuple(changes), ())
